@@ -513,12 +513,106 @@ static void case_assign(vf_rng *r)
 	vf_sample("reference replacement through conversion: %d assignments into 2 slots from 6 logging metatypes", nops);
 }
 
+/* ---- leg E: arrays of references (copy, overwrite, cut) ------------------------------------ */
+static void case_refarray(vf_rng *r)
+{
+	/* metatype reference elements in typed buffers: each slot is one handle; objects 0..2 also have the
+	 * harness reference, 3..4 live through slots only (their destruction is observable via hgone) */
+	const MPT_STRUCT(type_traits) *tr = mpt_meta_reference_traits();
+	MPT_STRUCT(array) a[2] = { MPT_ARRAY_INIT, MPT_ARRAY_INIT };
+	int shd[2][48]; size_t sn[2] = { 0, 0 };
+	const size_t PS = sizeof(void *);
+	int nops = vf_range(r, 5, 40);
+	char ctx[160];
+	for (int i = 0; i < 6; i++) { hm[i].mt._vptr = &hm_vptr; hm[i].id = i; hrefs[i] = i < 3 ? 1 : 0; hadd[i] = hdrop[i] = 0; hgone[i] = 0; }
+	vf_fp_u64(0xe);
+	for (int i = 0; i < nops; i++) {
+		int h = (int) vf_below(r, 2), op = (int) vf_below(r, 6);
+		size_t n = sn[h], pos = vf_below(r, (uint32_t) n + 2), cnt = vf_below(r, 4);
+		MPT_INTERFACE(metatype) *src[4];
+		int ids[4];
+		if (n + cnt + 2 >= 44) { cnt = 0; if (pos > n) pos = n; }
+		for (size_t j = 0; j < cnt; j++) {
+			ids[j] = (int) vf_below(r, 6) - 1;      /* -1 = empty reference, 0..4 objects (5 is unshareable: not used here) */
+			if (ids[j] >= 0 && hgone[ids[j]]) ids[j] = -1;
+			src[j] = ids[j] < 0 ? 0 : &hm[ids[j]].mt;
+		}
+		snprintf(ctx, sizeof(ctx), "reference array op=%d h=%d pos=%zu cnt=%zu count=%zu", op, h, pos, cnt, n);
+		vf_log("%s", ctx);
+		vf_fp_u64(((uint64_t) op << 32) ^ (h << 24) ^ (pos << 8) ^ cnt);
+		switch (op) {
+		case 0: case 1: {
+			vf_at("mpt_array_set"); vf_count("refarray:array_set", 1);
+			/* a copy source owns its references for the duration of the call */
+			if (op) for (size_t j = 0; j < cnt; j++) if (src[j]) src[j]->_vptr->addref(src[j]);
+			void *p = mpt_array_set(&a[h], tr, cnt * PS, op ? src : 0, (long) pos);
+			if (op) for (size_t j = 0; j < cnt; j++) if (src[j]) src[j]->_vptr->unref(src[j]);
+			VF_CHECK(p != 0, "refarray:array_set:refused", "%s: NULL", ctx);
+			for (size_t j = n; j < pos; j++) shd[h][j] = -1;
+			for (size_t j = 0; j < cnt; j++) shd[h][pos + j] = op ? ids[j] : -1;
+			if (pos > sn[h]) sn[h] = pos;
+			if (pos + cnt > sn[h]) sn[h] = pos + cnt;
+			break; }
+		case 2:
+			vf_at("mpt_array_clone"); vf_count("refarray:share", 1);
+			VF_CHECK(mpt_array_clone(&a[h], &a[!h]) >= 0, "refarray:clone:refused", "%s", ctx);
+			memcpy(shd[h], shd[!h], sizeof(shd[0])); sn[h] = sn[!h];
+			break;
+		case 3: {
+			if (!a[h]._buf || !n) break;
+			vf_at("mpt_array_slice");
+			if (!mpt_array_slice(&a[h], 0, 0)) vf_fail("refarray:detach:refused", "%s", ctx);
+			if (pos >= n) pos = n - 1;
+			if (!cnt) cnt = 1;
+			if (pos + cnt > n) cnt = n - pos;
+			vf_at("mpt_buffer_cut"); vf_count("refarray:cut", 1);
+			VF_CHECK(mpt_buffer_cut(a[h]._buf, pos * PS, cnt * PS) >= 0, "refarray:cut:refused", "%s", ctx);
+			memmove(shd[h] + pos, shd[h] + pos + cnt, (n - pos - cnt) * sizeof(int)); sn[h] = n - cnt;
+			break; }
+		case 4:
+			vf_at("mpt_array_clone"); vf_count("refarray:drop", 1);
+			mpt_array_clone(&a[h], 0); sn[h] = 0;
+			break;
+		case 5: {
+			if (!a[h]._buf) break;
+			vf_at("mpt_buffer_cut"); vf_count("refarray:truncate", 1);
+			if (!mpt_array_slice(&a[h], 0, 0)) vf_fail("refarray:detach:refused", "%s", ctx);
+			if (pos > n) pos = n;
+			VF_CHECK(mpt_buffer_cut(a[h]._buf, pos * PS, 0) >= 0, "refarray:truncate:refused", "%s", ctx);
+			sn[h] = pos;
+			break; }
+		}
+		/* every object's counter == harness reference + slots of distinct buffers holding it;
+		 * destroyed exactly when that number reaches zero */
+		long expect[6] = { 1, 1, 1, 0, 0, 0 };
+		for (int k = 0; k < 2; k++) {
+			size_t c = a[k]._buf ? a[k]._buf->_used / PS : 0;
+			VF_CHECK(c == sn[k], "refarray:count", "%s: handle %d counts %zu references, model %zu", ctx, k, c, sn[k]);
+			if (k && a[0]._buf == a[1]._buf) continue;
+			for (size_t j = 0; j < c; j++) if (shd[k][j] >= 0) expect[shd[k][j]]++;
+		}
+		for (int k = 0; k < 5; k++) {
+			if (hgone[k]) { VF_CHECK(expect[k] == 0, "refarray:destroyed-while-referenced", "%s: object %d destroyed while %ld slots hold it", ctx, k, expect[k]); continue; }
+			VF_CHECK(hrefs[k] == expect[k], hrefs[k] > expect[k] ? "refarray:counter-above-handles" : "refarray:counter-below-handles",
+			         "%s: object %d has counter %ld, %ld handles exist", ctx, k, hrefs[k], expect[k]);
+		}
+		vf_count("monitor:refarray-checks", 1);
+	}
+	mpt_array_clone(&a[0], 0);
+	mpt_array_clone(&a[1], 0);
+	for (int k = 0; k < 3; k++) VF_CHECK(hrefs[k] == 1 && !hgone[k], "refarray:counter-above-handles", "object %d keeps counter %ld after all arrays are gone", k, hrefs[k]);
+	for (int k = 3; k < 5; k++) VF_CHECK(hrefs[k] == 0, "refarray:counter-above-handles", "object %d keeps counter %ld after all arrays are gone", k, hrefs[k]);
+	vf_nontrivial();
+	vf_sample("arrays of metatype references: %d set/default/share/cut/drop/truncate operations on 2 handles, 5 objects", nops);
+}
+
 /* ---- entry -------------------------------------------------------------------------- */
 static uint64_t n_raw(void) { return 70; }
 static uint64_t n_buf(void) { return vf_thorough ? 1800000 : 60000; }
 static uint64_t n_meta(void) { return vf_thorough ? 1950000 : 65000; }
 static uint64_t n_assign(void) { return vf_thorough ? 300000 : 30000; }
-uint64_t vf_cases(void) { return n_raw() + n_buf() + n_meta() + n_assign(); }
+static uint64_t n_refarr(void) { return vf_thorough ? 300000 : 30000; }
+uint64_t vf_cases(void) { return n_raw() + n_buf() + n_meta() + n_assign() + n_refarr(); }
 void vf_case(uint64_t idx, vf_rng *r)
 {
 	if (idx < n_raw()) { case_raw(idx); return; }
@@ -526,5 +620,7 @@ void vf_case(uint64_t idx, vf_rng *r)
 	if (idx < n_buf()) { case_buffers(r); return; }
 	idx -= n_buf();
 	if (idx < n_meta()) { case_meta(idx, r); return; }
-	case_assign(r);
+	idx -= n_meta();
+	if (idx < n_assign()) { case_assign(r); return; }
+	case_refarray(r);
 }
